@@ -47,6 +47,10 @@ def make_source(kind, total, dtA, dtB, ordA, ordB, wB):
         sdt = nps.StructDtype([('A', a.dtype), ('B', b.dtype, wB)])
         f = {'A': nps.Field('caller', 'colA', 0, a.dtype, None), 'B': nps.Field('caller', 'colB', 0, b.dtype, wB)}
         return (nps.structarr('caller', total, sdt, f), {'A': 'A', 'B': 'B'}, NumpyDataWrapper)
+    if kind == 4:       # structured array with exactly the frame's channels but in another field order: copy path
+        sdt = nps.StructDtype([('B', b.dtype, wB), ('A', a.dtype)])
+        f = {'B': nps.Field('caller', 'colB', 0, b.dtype, wB), 'A': nps.Field('caller', 'colA', 0, a.dtype, None)}
+        return (nps.structarr('caller', total, sdt, f), {'A': 'A', 'B': 'B'}, NumpyDataWrapper)
     # HDF5: one mapping entry with, one without the leading slash; an unused dataset
     H5.files['data.h5'] = nps.FakeH5File({'/dsA': a, '/dsB': b, '/extra': x})
     return ('data.h5', {'A': 'dsA', 'B': '/dsB'}, HDF5DataWrapper)
@@ -87,7 +91,7 @@ def window_check(kind, total, frm, to, to_none, start, stop, stop_none, dtA, dtB
     return 0
 
 
-KINDS = 4
+KINDS = 5            # dict, structured (copy path), structured (fast path), HDF5, structured with permuted fields
 
 
 def ob_window(kind: int, total: int, frm: int, to: int, to_none: bool, start: int, stop: int, stop_none: bool) -> int:
@@ -655,3 +659,49 @@ def reach_two_frames(n1: int, n2: int, c1: int, c2: int) -> int:
     post: _ != 0
     """
     return two_frames_check(n1, n2, c1, c2)
+
+
+def two_files_data_check(n1, n2, pass_dict, same_names):
+    """Two logical files (own set names) whose channels carry inline data under the same dataset names; one dict is
+    passed as data for the whole write (as DLISFile.generate_logical_records does: the same object for every frame).
+    Each file's records must carry its own arrays and its own row count."""
+    nps.reset()
+    df, (lf1, lf2) = new_file(2)
+    add_origin(lf1, 'O1', set_name='S1')
+    add_origin(lf2, 'O2', set_name='S2')
+    c1 = lf1.add_channel('A', data=col('colA1', n1, 2, '<', None), set_name='S1')
+    c2 = lf2.add_channel('A' if same_names else 'B', data=col('colA2', n2, 2, '<', None), set_name='S2')
+    f1 = lf1.add_frame('F1', channels=(c1,), set_name='S1')
+    f2 = lf2.add_frame('F2', channels=(c2,), set_name='S2')
+    shared = {} if pass_dict else None
+    m1 = lf1._make_multi_frame_data(f1, data=shared)
+    m2 = lf2._make_multi_frame_data(f2, data=shared)
+    r1, r2 = list(m1), list(m2)
+    if len(r1) != n1 or len(r2) != n2:
+        return 1
+    nm2 = 'A' if same_names else 'B'
+    for k in range(n1):
+        if r1[k]._slots.arr.fields['A'].column != 'colA1' or r1[k]._frame is not f1 or r1[k]._frame_number != k + 1:
+            return 2
+    for k in range(n2):
+        if r2[k]._slots.arr.fields[nm2].column != 'colA2' or r2[k]._frame is not f2 or r2[k]._frame_number != k + 1:
+            return 3
+    if pass_dict and len(shared) != 0:
+        return 4                           # the caller's dict was written to
+    return 0
+
+
+def ob_two_files_data(n1: int, n2: int, pass_dict: bool, same_names: bool) -> int:
+    """
+    pre: 1 <= n1 <= 4 and 1 <= n2 <= 4
+    post: _ == 0
+    """
+    return two_files_data_check(n1, n2, pass_dict, same_names)
+
+
+def reach_two_files_data(n1: int, n2: int, pass_dict: bool, same_names: bool) -> int:
+    """
+    pre: 1 <= n1 <= 4 and 1 <= n2 <= 4
+    post: _ != 0
+    """
+    return two_files_data_check(n1, n2, pass_dict, same_names)
